@@ -130,6 +130,29 @@ func TestVerifC19(t *testing.T) {
 		fmt.Fprintln(impl, res)
 	}
 
+	dec2 := func(a, b []byte) {
+		lines++
+		counts["dec2"]++
+		fmt.Fprintf(ops, "dec2 %s %s\n", hexOrDash(a), hexOrDash(b))
+		res := func() (res string) {
+			defer func() {
+				if r := recover(); r != nil {
+					res = "panic"
+				}
+			}()
+			p.items = []badger.Item{{Key: []byte("file/x"), Value: a}, {Key: []byte("file/y"), Value: b}}
+			fs, err := repo.GetAll(ctx)
+			if err != nil {
+				return "err"
+			}
+			var out []string
+			for _, f := range fs {
+				out = append(out, fmt.Sprintf("%d %s %s %s", uint64(f.Seq), f.TxId, f.ContentId, hexOrDash([]byte(f.Key))))
+			}
+			return strings.Join(out, " | ")
+		}()
+		fmt.Fprintln(impl, res)
+	}
 	rng := &c19rng{s: seed*104729 + 3}
 	seqs := []uint64{0, 1, 255, 256, 65535, 65536, 1<<32 - 1, 1 << 32, 1<<32 + 1, 1 << 63, 1<<63 - 1, 1<<64 - 1, 0x0102030405060708}
 	zero, ff := make([]byte, 16), []byte(strings.Repeat("\xff", 16))
@@ -146,6 +169,16 @@ func TestVerifC19(t *testing.T) {
 		for j := 0; j < 6; j++ {
 			dec(rng.bytes(l))
 		}
+	}
+	// several records in one GetAll: each record decodes independently of its neighbours
+	for i := 0; i < 60; i++ {
+		mk := func(kl int) []byte {
+			enc(rng.next()>>uint(rng.n(64)), rng.bytes(16), rng.bytes(16), rng.bytes(kl))
+			return append([]byte(nil), p.lastVal...)
+		}
+		a, b := mk(rng.n(3)*rng.n(20)), mk(rng.n(3)*rng.n(20))
+		dec2(a, b)
+		dec2(b, a)
 	}
 	n := 3000
 	if thorough {
